@@ -62,6 +62,7 @@ type footprint struct {
 }
 
 type Exec struct {
+	nanKeys int
 	prog *ssa.Program
 	b    *TB
 	sol  *Solver
